@@ -293,6 +293,9 @@ pub fn run_dec_check(ctx: &Ctx, check: &DecCheck) -> Stats {
             if h.stream.len() > 64 {
                 st.class("random-history-stream-longer-than-64");
             }
+            if h.stream.len() >= 512 {
+                st.class("random-history-stream-of-512-bytes-or-more");
+            }
             match (check.verdict)(h, &mut sc, st, false) {
                 None => {
                     if st.samples.is_empty() && crate::gen::has_non_ascii(&h.stream) && !h.cuts.is_empty() {
